@@ -772,12 +772,17 @@ def _utf8(b):
 # a third reading: passwords as BYTES in the environment, some of them not UTF-8.  Such a password may be refused (the step
 # then changes nothing); taken, it is the password as given - two different byte strings never are the same password
 LIFE_PW_C = {"p0": b"kestrel-\xff-pass", "p1": b"kestrel-\xfe-pass", "p2": b"plain", "p3": b"\xc3"}
+# a fourth reading: passwords that differ only by a line terminator at an end (an environment variable carries them
+# verbatim; they are four different passwords)
+LIFE_PW_D = {"p0": "line", "p1": "line\n", "p2": "line\r\n", "p3": "\nline\r"}
 
 
-def exec_life_history(w, hid, first, ops):
+def exec_life_history(w, hid, first, ops, reading=None):
     evs = []
     hn = int(hid[1:])
     pwmap = LIFE_PW_C if hn % 5 == 4 else (LIFE_PW_B if hn % 2 else LIFE_PW)
+    if reading == "D" or (reading is None and hn % 7 == 3):
+        pwmap = LIFE_PW_D
     pwmap = {k: (v if isinstance(v, bytes) else v.encode()) for k, v in pwmap.items()}
 
     def penv(**kw):
@@ -878,7 +883,8 @@ def exec_life_history(w, hid, first, ops):
 def c16(pid, tier, seed, selftest=False):
     rep = Report(pid, tier, seed)
     rep.rule = ("histories of change-pass / extract-pub / use over the passwords {empty, 'a', non-ASCII, 200 bytes} from a generated "
-                "key, enumerated by TLC from KeyLife.tla (IdentityKept, SaltsFresh); each is run through the CLI; after every step "
+                "key, enumerated by TLC from KeyLife.tla (IdentityKept, SaltsFresh; further readings of the password names: edge white space, "
+                "block-size lengths, non-UTF-8 bytes, line terminators at the ends); each is run through the CLI; after every step "
                 "the newest PrivateKey string is unlocked by the specification (LockedKey term) under every password used so far: "
                 "it must give the original key under the newest password only, with a salt never seen before; extract-pub must "
                 "print EncodedPub(X25519(sk)) = the PublicKey line of generation; stdout/stderr are searched for the raw, hex and "
@@ -905,9 +911,14 @@ def c16(pid, tier, seed, selftest=False):
         hists = hists[::23][:40]
     hists.append({"mode": "life", "first": "p1", "ops": [["changepass", "p1"], ["changepass", "p1"], ["extractpub"], ["changepass", "p2"],
                                                          ["changepass", "p1"], ["use"], ["extractpub"]]})
+    # line terminators at the ends of the new password, each as the newest password at an extract-pub and a use
+    hists.append({"mode": "life", "first": "p0", "reading": "D",
+                  "ops": [["changepass", "p1"], ["extractpub"], ["changepass", "p2"], ["use"], ["changepass", "p3"], ["extractpub"],
+                          ["changepass", "p0"], ["use"]]})
     w = World(pid, tpl, seed)
     with cf.ThreadPoolExecutor(max_workers=NCPU) as ex:
-        all_evs = list(ex.map(lambda ih: exec_life_history(w, "l%d" % ih[0], ih[1]["first"], ih[1]["ops"]), list(enumerate(hists))))
+        all_evs = list(ex.map(lambda ih: exec_life_history(w, "l%d" % ih[0], ih[1]["first"], ih[1]["ops"], ih[1].get("reading")),
+                              list(enumerate(hists))))
     evs = [e for x in all_evs for e in x]
     for h in hists:
         rep.case(json.dumps(h, sort_keys=True), any(o[0] == "changepass" for o in h["ops"]))
